@@ -876,8 +876,12 @@ class IrcState(IrcCommandDispatcher, log.Firewalled):
         c = self.channels[channel]
         for item in items.split():
             if ircutils.isUserHostmask(item):
-                name = ircutils.nickFromHostmask(item)
-                self.nicksToHostmasks[name] = name
+                # userhost-in-names: item is [prefixes]nick!user@host
+                (name, user, host) = ircutils.splitHostmask(item)
+                nick = name.lstrip('@%+&~!')
+                if nick:
+                    hostmask = '%s!%s@%s' % (nick, user, host)
+                    self.nicksToHostmasks[nick] = hostmask
             else:
                 name = item
             c.addUser(name)
